@@ -266,11 +266,60 @@ def run_libfile(case, R):
     R.findings[before:] = [('libfile:' + sg, d) for sg, d in R.findings[before:]]
 
 
+WRITER_CASES = [{'k': 'writer', 'what': w, 'v': v} for w, v in (
+    ('incon-nseq', 100000), ('incon-nseq', -10000), ('incon-nadd', 123456), ('incon-kcyc', 100000), ('incon-iter', 999999),
+    ('geo-node-x', 1e10), ('geo-node-x', -1e9), ('geo-layer-bottom', -1e9), ('geo-surface', 1e10), ('geo-well-z', -1e9))]
+
+
+def run_writer(case, R):
+    """a value that cannot be represented in its columns, handed to the library's own file writers (t2incon.write,
+    mulgrid.write): the write fails loudly - or, if it returns, the file holds everything that was to be written"""
+    import numpy as np
+    import t2incons, mulgrids
+    what, v = case['what'], case['v']
+    R.label('writer:' + what); R.nontrivial()
+    path = os.path.join(R.tmp, 'w.dat')
+    if what.startswith('incon'):
+        inc = t2incons.t2incon()
+        for i in range(4):
+            inc['  a%2d' % (i + 1)] = t2incons.t2blockincon([1.0e5 + i, 20.0], '  a%2d' % (i + 1))
+        if what == 'incon-nseq': inc['  a 2'].nseq, inc['  a 2'].nadd = v, 1
+        elif what == 'incon-nadd': inc['  a 2'].nseq, inc['  a 2'].nadd = 1, v
+        else:
+            inc.timing = {'kcyc': 1, 'iter': 2, 'nm': 3, 'tstart': 0.0, 'sumtim': 1.0e6}
+            inc.timing[what.split('-')[1]] = v
+        try:
+            inc.write(path, reset=False)
+        except (ValueError, OverflowError):
+            R.label('writer:refused-loudly'); return
+        with R.lib('read-back'):
+            back = t2incons.t2incon(path)
+        R.check(list(back.blocklist) == list(inc.blocklist) and (back.timing is not None) == (inc.timing is not None), 'writer:silent-truncation',
+                't2incon.write() returned although %s = %r cannot be written; the file holds blocks %r, timing %r' % (what, v, list(back.blocklist), back.timing))
+        return
+    g = mulgrids.mulgrid().rectangular([10.] * 3, [10.] * 2, [5.] * 3, atmos_type=0)
+    g.add_well(mulgrids.well('W   1', [np.array([5., 5., 0.]), np.array([5., 5., -12.])]))
+    if what == 'geo-node-x': g.nodelist[3].pos = np.array([float(v), float(g.nodelist[3].pos[1])])
+    elif what == 'geo-layer-bottom': g.layerlist[-1].bottom = float(v)
+    elif what == 'geo-surface': g.columnlist[1].surface = float(v)
+    else: g.welllist[0].pos[-1] = np.array([5., 5., float(v)])
+    try:
+        g.write(path)
+    except (ValueError, OverflowError):
+        R.label('writer:refused-loudly'); return
+    txt = open(path).read()
+    have = [k for k in ('VERTI', 'GRID', 'CONNE', 'LAYER', 'SURFA', 'WELLS') if ('\n' + k) in ('\n' + txt)]
+    R.check(len(have) == 6 and txt.rstrip('\n').endswith(''), 'writer:silent-truncation',
+            'mulgrid.write() returned although %s = %r cannot be written; the file has the sections %r' % (what, v, have))
+    R.check(have == ['VERTI', 'GRID', 'CONNE', 'LAYER', 'SURFA', 'WELLS'], 'writer:silent-truncation', 'sections %r' % have)
+
+
 def searches(tier):
     q = tier == 'quick'
     return [Search('lattice', 'enum', lattice(tier), shards=16),
             Search('whole_records', 'hyp', record_case, n=6000 if q else 200000, shards=4 if q else 16),
             Search('record_sequences_through_a_file', 'hyp', file_case, n=1500 if q else 40000, shards=4 if q else 16),
+            Search('unwritable_values_through_the_object_writers', 'enum', lambda: list(WRITER_CASES), shards=2),
             Search('library_written_files', 'hyp', libfile_case, n=3200 if q else 40000, shards=8 if q else 16)]
 
 
@@ -376,6 +425,7 @@ def run_file(case, R):
 def run_case(case, R):
     if case['k'] == 'file': return run_file(case, R)
     if case['k'] == 'libfile': return run_libfile(case, R)
+    if case['k'] == 'writer': return run_writer(case, R)
     tname, kind = case['table'], case['kind']
     p = parser(tname)
     if case.get('base'):
